@@ -259,7 +259,10 @@ def time_track(case, ctx):
     n = rng.choice([0, 1, 2, 7, 100])
     offset = rng.choice([0.0, 1.5, -2.25, rng.uniform(-1e3, 1e3), 1e-6])
     inc = rng.choice([1.0, 1e-3, 1e-6, 0.1, rng.uniform(1e-9, 10.0), -0.5])
-    start = (rng.randrange(-2 * 10 ** 9, 4 * 10 ** 9), rng.randrange(2 ** 64))
+    far = rng.random() < 0.25          # outside datetime64[ns]'s span (1678..2262): only the coarser accuracies apply
+    secs0 = rng.choice([-12_700_000_000, 15_600_000_000]) if far else rng.randrange(-2 * 10 ** 9, 4 * 10 ** 9)
+    unit0 = rng.choice(['s', 'ms', 'us', 'ns'])
+    start = (secs0, rng.choice(adversarial_fractions(rng, unit0)) if rng.random() < 0.7 else rng.randrange(2 ** 64))
     props = [('wf_start_offset', 'f64', offset), ('wf_increment', 'f64', inc), ('wf_start_time', 'ts', start), ('wf_samples', 'i32', n)]
     segs = M.build_file(rng, [('g', 'c', 'f64', n, props)], nseg=1, nchunks=(1,))
     blob = M.encode_file(segs)[0]
@@ -281,7 +284,7 @@ def time_track(case, ctx):
             if np.abs(rel - want).max() > tol:
                 k = int(np.abs(rel - want).argmax())
                 ctx.violation('time_track/spacing', dict(info, k=k, got=float(rel[k]), want=float(want[k])))
-        for acc in ('s', 'ms', 'us', 'ns'):
+        for acc in (('s', 'ms', 'us') if far else ('s', 'ms', 'us', 'ns')):
             U = UNITS[acc]
             try:
                 ab = ch.time_track(absolute_time=True, accuracy=acc)
